@@ -209,9 +209,11 @@ def _worker(args) -> Acc:
         sub.setup()
     n_detail: Dict[str, int] = {}
     n_samples = 0
-    for i, case in enumerate(sub.gen(_TIER, _SEED)):
-        if i % nshards != shard:
-            continue
+    stream = ((i, c) for i, c in enumerate(sub.gen(_TIER, _SEED)) if i % nshards == shard)
+    if os.environ.get("VERIF_ORDER") == "reversed":
+        # order seam: the same cases, last first (state left behind by earlier cases then meets other successors)
+        stream = iter(list(stream)[::-1])
+    for i, case in stream:
         try:
             out = sub.check(case)
         except Exception as e:  # harness or implementation raised unexpectedly
